@@ -417,7 +417,9 @@ def run_b(case):
                     if case['faults'].get(tag) not in ('rcpt4xx', 'rcpt5xx', 'eod4xx'):
                         # a transient error without a scripted fault: only connection-level events may explain it
                         # (with a short command timeout also a slow exchange)
-                        if not (case.get('refuse') or case.get('cmd_t') or case.get('after_ehlo') or
+                        # (in the late-RSET family the only slow exchange is the RSET, after which the connection is dropped: later
+                        #  messages go over a fresh connection and have nothing to explain a failure)
+                        if not (case.get('refuse') or (case.get('cmd_t') and not case.get('rset_delay')) or case.get('after_ehlo') or
                                 any(v in ('then421', 'thenclose') for v in case['faults'].values())):
                             out.append(('C19:unexplained-failure', '%s: %s -> %r' % (desc, tag, rep.reply)))
                 elif tag not in (text or ''):
@@ -427,6 +429,9 @@ def run_b(case):
                     out.append(('C19:attempt-raised:%s' % type(res).__name__, '%s: %s: %r' % (desc, tag, res)))
                 elif [t for t in re.findall(r'\bm\d+\b', res.reply.message or '') if t != tag]:
                     out.append(('C19:result-of-another-envelope', '%s: attempt %s received %r' % (desc, tag, res.reply)))
+                elif case.get('rset_delay') and not case['faults'].get(tag) and not case['faults'].get(tag + 'b'):
+                    # late-RSET family: nothing is scripted to go wrong for this message, and it travels on a fresh connection
+                    out.append(('C19:unexplained-failure', '%s: %s -> %r' % (desc, tag, res.reply)))
         if case.get('after_ehlo') and nconn[0] > 4 * n + 4:
             out.append(('C19:reconnect-storm', '%s: %d connections were made for %d attempts' % (desc, nconn[0], n)))
         if case['size'] and DelayPeer.max_open > case['size']:
